@@ -18,19 +18,88 @@ namespace Risor.C06
 
 /-- `main_stops` (the poll): on a VM whose `halt` flag is set, the next instruction of any
     code — loop, recursion, call of a builtin, a callback's return — does not execute: the
-    context's error is raised instead.  For every thread state; the only step that does not
-    poll is falling off the end of the main code (nothing is left to stop there). -/
+    context's error is raised instead.  For every thread state whose current `eval` was handed
+    a context that fires with the run's (`detachedBy = none`: the main code, and every
+    callback of the builtins of the repository, which pass their own context on; for ANY
+    callee context see `halt_honoured_any_callee_ctx`); the only step that does not poll is
+    falling off the end of the main code (nothing is left to stop there). -/
 theorem main_stops (c : Bool) (t : Thread) (p : Prog) (hh : t.halt = true) (hr : t.st = .run p)
-    (hp : p ≠ .done ∨ t.frames ≠ []) : (stepT c t).1.st = .raising .ctx := by
-  obtain ⟨id, halt, armed, st, frames⟩ := t
-  simp only at hh hr hp
-  subst hh hr
-  cases p with
-  | done =>
-    cases frames with
-    | nil => simp at hp
-    | cons f fs => simp [stepT]
-  | _ => simp [stepT]
+    (hp : p ≠ .done ∨ t.frames ≠ []) (hd : detachedBy t.frames = none) :
+    (stepT c t).1.st = .raising .ctx := by
+  rw [stepT_halted c t p hh hr hp, haltedT_of_none t hd]
+
+/-- the hypothesis of `main_stops` holds for every frame stack made of the builtins of the
+    repository and of host builtins that pass a context cancelled with the run's -/
+theorem detachedBy_none_of_follows (fs : List (Wrap × Prog))
+    (h : ∀ f ∈ fs, ∀ e, f.1 ≠ .host .detached e) : detachedBy fs = none := by
+  induction fs with
+  | nil => rfl
+  | cons f fs ih =>
+    obtain ⟨w, k⟩ := f
+    have hw := h (w, k) (by simp)
+    have := ih (fun f hf => h f (by simp [hf]))
+    cases w with
+    | host cc e =>
+      cases cc with
+      | follows => simpa [detachedBy] using this
+      | detached => exact absurd rfl (hw e)
+    | _ => simpa [detachedBy] using this
+
+/-! ### 1b. The halt test does not depend on the context the callee was handed -/
+
+/-- the DECISION of the halt test reads only the flag: whatever the consulted context
+    reports (`e`, `e'` — the run's own context, a child, a detached one), the instruction
+    executes for both or for neither; the consulted context only chooses the returned value -/
+theorem poll_decision_ignores_callee_ctx (halt e e' : Bool) :
+    (pollImpl halt e = .go ↔ pollImpl halt e' = .go) ∧
+    (pollImpl halt e = .stop e ↔ halt = true) ∧ pollImpl halt e ≠ .lower := by
+  cases halt <;> cases e <;> cases e' <;> simp [pollImpl]
+
+/-- the halted branch of the thread model IS that test: with the flag raised the poll stops
+    (`.stop`), with the error of the consulted context when it reports one -/
+theorem haltedT_is_poll_stop (t : Thread) :
+    pollImpl true (detachedBy t.frames).isNone = .stop (detachedBy t.frames).isNone ∧
+    ((detachedBy t.frames).isNone = true → (haltedT t).st = .raising .ctx) := by
+  refine ⟨rfl, fun h => ?_⟩
+  rw [haltedT_of_none t (by cases hd : detachedBy t.frames <;> simp_all)]
+
+/-- `halt_honoured_any_callee_ctx`: on a VM whose `halt` flag is set, the next poll of ANY
+    frame stops, for EVERY callee context: whatever builtins enclose the running code and
+    whatever context each of them handed to its callback (`t.frames` is arbitrary — the
+    caller's own context, a child, `WithValue`, `WithoutCancel`, background + values, nested
+    in any order), the instruction does not execute, nothing is spawned, the flag stays
+    raised (it is never lowered), and the frame is left: by the context's error, by the pop
+    panic, or by returning to the enclosing builtin — so what is left to do strictly
+    shrinks.  (By `halt_implies_cancelled` a raised flag in a reachable state was raised by
+    the watcher of the run's own context.) -/
+theorem halt_honoured_any_callee_ctx (c : Bool) (t : Thread) (p : Prog) (hh : t.halt = true)
+    (hr : t.st = .run p) (hp : p ≠ .done ∨ t.frames ≠ []) :
+    (stepT c t).1.halt = true ∧ (stepT c t).2 = none ∧
+    ((stepT c t).1.st = .raising .ctx ∨ (stepT c t).1.st = .raising .panic ∨
+      ∃ w k fs, t.frames = (w, k) :: fs ∧ (stepT c t).1.st = .run k ∧ (stepT c t).1.frames = fs) ∧
+    potT (stepT c t).1 < potT t := by
+  rw [stepT_halted c t p hh hr hp]
+  refine ⟨by rw [(haltedT_flags t).1]; exact hh, rfl, ?_, ?_⟩
+  · rcases haltedT_cases t with e | e | ⟨w, k, fs, hf, e⟩
+    · exact Or.inl (by rw [e])
+    · exact Or.inr (Or.inl (by rw [e]))
+    · exact Or.inr (Or.inr ⟨w, k, fs, hf, by rw [e], by rw [e]⟩)
+  · have h1 := haltedT_pot t
+    have h2 := size_pos p
+    have h3 : potT t = size p + potFrames t.frames := by unfold potT; rw [hr]; rfl
+    show potT (haltedT t) < potT t
+    omega
+
+/-- `pollTrusting_not_honoured`: the property does NOT hold for a halt test that trusts the
+    consulted context.  Under a detached callee context it lowers the flag and the
+    instruction executes (so a loop in the callback is never stopped, and the cancellation
+    is lost for the whole evaluation); the code as it is never does that. -/
+theorem pollTrusting_not_honoured :
+    pollTrusting true false = .lower ∧ (∀ halt e, pollImpl halt e ≠ .lower) ∧
+    (∀ e, pollTrusting true e = pollImpl true e ↔ e = true) := by
+  refine ⟨rfl, ?_, ?_⟩
+  · intro halt e; cases halt <;> cases e <;> simp [pollImpl]
+  · intro e; cases e <;> simp [pollTrusting, pollImpl]
 
 /-- `blocked_unblocks`: a thread blocked in any of the context-aware primitives (channel
     receive/send/range, `time.sleep`, `thread.wait`) is enabled as soon as the context has
@@ -116,6 +185,16 @@ theorem C06_partial_main (cfg : Cfg) (p : Prog) (σ₁ σ₂ : List Label) (i : 
     ∃ t', (exec cfg (exec cfg (init p) σ₁) σ₂).threads[i]? = some t' ∧ t'.st.isFin = true := by
   have hc := halt_implies_cancelled cfg p σ₁ t (List.mem_of_getElem? ht) hh
   exact ⟨_, exec_local cfg i σ₂ _ t hc ht (fun _ => hh), halted_thread_finishes t hh _ hn⟩
+
+/-- …in every reachable state of every interleaving: once the watcher of the run's own
+    context has raised the flag of thread `i`'s VM, EVERY later poll of that thread — of the
+    frame it is in, and of every enclosing frame it returns to, whatever context each was
+    handed — finds the flag raised (`halt` is never lowered by a step) and stops. -/
+theorem halt_stays_raised (cfg : Cfg) (p : Prog) (σ₁ σ₂ : List Label) (i : Nat) (t : Thread)
+    (ht : (exec cfg (init p) σ₁).threads[i]? = some t) (hh : t.halt = true) :
+    ∃ t', (exec cfg (exec cfg (init p) σ₁) σ₂).threads[i]? = some t' ∧ t'.halt = true := by
+  have hc := halt_implies_cancelled cfg p σ₁ t (List.mem_of_getElem? ht) hh
+  exact ⟨_, exec_local cfg i σ₂ _ t hc ht (fun _ => hh), by rw [iter_halt]; exact hh⟩
 
 /-- finished is final: whatever happens afterwards, a thread that has ended stays ended
     (no script code of it runs again) -/
@@ -291,7 +370,7 @@ theorem C06_partial_error_identity (t : Thread) (h : ctxOnly t = true) (n : Nat)
         simp [ctxOnly] at h
         obtain ⟨hh, hp⟩ := h
         subst hh
-        cases p <;> simp [stepT, ctxOnly] at hp ⊢
+        cases p <;> simp [stepT, ctxOnly, haltedT, detachedBy] at hp ⊢
   have hfin := finishes_of_invariant (fun t => ctxOnly t = true) keep
     (fun t h hs => by
       obtain ⟨id, halt, armed, st, frames⟩ := t
@@ -382,7 +461,16 @@ theorem C06_counterexample_try_swallows :
 
 /-- frames that cannot swallow, state that cannot fall off the end silently -/
 def raises (t : Thread) : Bool :=
-noTry t.frames && (match t.st with
+noTry t.frames && (detachedBy t.frames).isNone && (match t.st with
+    | .run p => t.halt && (p != .done || !t.frames.isEmpty)
+    | .blocked pr _ => (primEffect pr).isSome
+    | .raising _ => true
+    | .fin e => e.isSome)
+
+/-- `raises` without its clause about the callee context: what `C06_partial_error_nonnil`
+    would have to hold for if the returned error did not depend on the consulted context -/
+def raisesButDetached (t : Thread) : Bool :=
+  noTry t.frames && (match t.st with
     | .run p => t.halt && (p != .done || !t.frames.isEmpty)
     | .blocked pr _ => (primEffect pr).isSome
     | .raising _ => true
@@ -400,14 +488,16 @@ theorem C06_partial_error_nonnil (t : Thread) (h : raises t = true) (n : Nat) (h
     | fin e => simpa [stepT] using h
     | raising e =>
       cases frames with
-      | nil => simp [stepT, raises, noTry]
+      | nil => simp [stepT, raises, noTry, detachedBy]
       | cons f fs =>
         obtain ⟨w, k⟩ := f
-        cases w <;> simp_all [stepT, wrapErr, raises, noTry]
+        cases w with
+        | host cc b => cases cc <;> cases e <;> simp_all [stepT, wrapErr, raises, noTry, detachedBy]
+        | _ => cases e <;> simp_all [stepT, wrapErr, raises, noTry, detachedBy]
     | blocked pr k =>
       cases hp : primEffect pr <;> simp_all [stepT, raises]
     | run p =>
-      cases p <;> cases frames <;> cases halt <;> simp_all [stepT, raises, noTry]
+      cases p <;> cases frames <;> cases halt <;> simp_all [stepT, raises, noTry, haltedT, detachedBy]
   have hfin := finishes_of_invariant (fun t => raises t = true) keep
     (fun t h hs => by
       obtain ⟨id, halt, armed, st, frames⟩ := t
@@ -428,6 +518,63 @@ theorem C06_partial_error_nonnil (t : Thread) (h : raises t = true) (n : Nat) (h
   cases e with
   | none => simp [raises] at hc
   | some e => exact ⟨e, rfl⟩
+
+/-- `C06_partial_callee_ctx` (the guard the harness attributes the callee-context finding by,
+    at program level): for every program whose main code calls no host builtin with a
+    detached callee context (`noDetached`: everything made of the builtins of the repository
+    and of host builtins that pass on a context cancelled with the run's — loops, blocking
+    calls, spawns of anything), in every reachable state of every interleaving the context
+    consulted by the main thread's polls is one that fires with the run's: a raised flag
+    makes its next poll raise the context's own error (`main_stops` applies). -/
+theorem C06_partial_callee_ctx (p : Prog) (hg : noDetached p = true) (σ : List Label) (t : Thread)
+    (ht : t ∈ (exec implCfg (init p) σ).threads) (ha : t.armed = true) :
+    detachedBy t.frames = none ∧
+    ∀ c q, t.halt = true → t.st = .run q → (q ≠ .done ∨ t.frames ≠ []) →
+      (stepT c t).1.st = .raising .ctx := by
+  have inv := exec_invariant implCfg (fun t => t.armed = true → noDetT t = true)
+    (fun c t h ha => noDetT_step c t (h (by rw [stepT_armed] at ha; exact ha)))
+    (fun t h ha => by
+      rw [noDetT_fire]; apply h
+      unfold fireT at ha; split at ha <;> assumption)
+    (fun _ _ _ _ _ ha => by simp [newClone, implCfg] at ha)
+    σ (init p) (by intro t ht _; simp [init] at ht; subst ht; simp [noDetT, allK, detachedBy, hg])
+  have hd : detachedBy t.frames = none := by
+    have := inv t ht ha
+    simp [noDetT] at this
+    exact this.2
+  exact ⟨hd, fun c q hh hr hp => main_stops c t q hh hr hp hd⟩
+
+/-- `C06_counterexample_detached_nil`: a host builtin runs `func(){ for {} }` back under
+    `context.WithoutCancel(ctx)` as the last thing the program does.  The flag stops the
+    callback (`halt_honoured_any_callee_ctx`), but `eval` returns the error of the context
+    it was handed — nil; the callback "returns", no instruction is left to poll: the
+    cancelled call returns a nil error. -/
+theorem C06_counterexample_detached_nil :
+    ∃ t : Thread, t.halt = true ∧ t.st = .run .spin ∧ raisesButDetached t = true ∧
+      ∀ n, 2 ≤ n → (iter n t).st = .fin none := by
+  refine ⟨{ id := 0, halt := true, armed := true, st := .run .spin, frames := [(.host .detached false, .done)] },
+    rfl, rfl, by decide, ?_⟩
+  intro n hn
+  obtain ⟨d, rfl⟩ := Nat.exists_eq_add_of_le hn
+  have h2 : iter 2 { id := 0, halt := true, armed := true, st := .run .spin, frames := [(.host .detached false, .done)] }
+      = { id := 0, halt := true, armed := true, st := .fin none, frames := [] } := by decide
+  rw [iter_add, h2, iter_fix d _ (fin_fix true _ rfl)]
+
+/-- `C06_counterexample_detached_panic`: the same callback when the pop of the abandoned
+    frame's "result" finds the stack empty: the call returns the recovered Go panic
+    (`panic: runtime error: index out of range [-1]`), which is neither the context's error
+    nor a copy of its text — even with a loop after the builtin that WOULD have returned the
+    context's error. -/
+theorem C06_counterexample_detached_panic :
+    ∃ t : Thread, t.halt = true ∧ t.st = .run .spin ∧ raisesButDetached t = true ∧
+      ∀ n, 3 ≤ n → (iter n t).st = .fin (some .panic) := by
+  refine ⟨{ id := 0, halt := true, armed := true, st := .run .spin, frames := [(.host .detached true, .spin)] },
+    rfl, rfl, by decide, ?_⟩
+  intro n hn
+  obtain ⟨d, rfl⟩ := Nat.exists_eq_add_of_le hn
+  have h3 : iter 3 { id := 0, halt := true, armed := true, st := .run .spin, frames := [(.host .detached true, .spin)] }
+      = { id := 0, halt := true, armed := true, st := .fin (some .panic), frames := [] } := by decide
+  rw [iter_add, h3, iter_fix d _ (fin_fix true _ rfl)]
 
 /-! ### 5b. Evaluations on a VM that has been used before
 
@@ -525,6 +672,29 @@ example : ctxOnly { id := 0, halt := true, armed := true, st := .run .spin, fram
     ∧ ctxOnly { id := 0, halt := false, armed := true, st := .blocked .recv .done, frames := [] } = true
     ∧ raises { id := 0, halt := false, armed := true, st := .blocked .wait .done, frames := [(.sorted, .done)] } = true := by
   decide
+
+/-- `halt_honoured_any_callee_ctx` is not vacuous: a halted thread inside a host callback
+    with a detached context, itself inside `each` inside a host callback that passed its
+    own context, is a reachable state; the flag stops it, and the evaluation ends with the
+    context's error at the next poll of a frame that was handed the run's context -/
+example : ∃ t, (exec implCfg (init (.cb (.host .follows false) (.cb .each (.cb (.host .detached false) .spin .done) .done) .spin))
+      [.step 0, .step 0, .step 0, .step 0, .cancel, .fire 0]).threads[0]? = some t ∧ t.halt = true
+      ∧ detachedBy t.frames = some false ∧ (iter (potT t) t).st = .fin (some .msg) :=
+  ⟨{ id := 0, halt := true, armed := true, st := .run .spin,
+     frames := [(.host .detached false, .done), (.each, .done), (.host .follows false, .spin)] },
+    by decide, by decide, by decide, by decide⟩
+
+/-- …and after a detached callback that "returned" under the raised flag, the next poll of the
+    main code (run's own context) returns the context's error itself -/
+example : (iter 3 (Thread.mk 0 true true (.run .spin) [(.host .detached false, .spin)])).st
+    = .fin (some .ctx) := by decide
+
+/-- the guard of `C06_partial_callee_ctx` admits host callbacks with every context that is
+    cancelled with the run's, inside and around the builtins of the repository, and spawned
+    functions of any kind (a detached callback inside a SPAWNED function is the spawned-loop
+    finding: its VM has no watcher at all) -/
+example : noDetached (.cb (.host .follows false) (.cb .sorted (.cb (.host .follows false) .spin .done) .done)
+    (.spawn 1 (.cb (.host .detached false) .spin .done) (.block .recv .spin))) = true := by decide
 
 /-- the guard of `C06_partial_error_program` admits loops after channel operations and
     spawned functions of any kind -/
